@@ -219,6 +219,30 @@ func (vc *VC) execBlock(act *Act, b *ssa.BasicBlock, st *State, from int) {
 	}
 }
 
+func (vc *VC) rangeID(r *ssa.Range) string {
+	if vc.rangeIDs == nil {
+		vc.rangeIDs = map[*ssa.Range]string{}
+	}
+	if id, ok := vc.rangeIDs[r]; ok {
+		return id
+	}
+	id := fmt.Sprintf("range%d", len(vc.rangeIDs)+1)
+	vc.rangeIDs[r] = id
+	return id
+}
+
+// headerRange: the map iteration driven by the Next instruction in a loop header.
+func headerRange(h *ssa.BasicBlock) *ssa.Range {
+	for _, ins := range h.Instrs {
+		if n, ok := ins.(*ssa.Next); ok && !n.IsString {
+			if r, ok := n.Iter.(*ssa.Range); ok {
+				return r
+			}
+		}
+	}
+	return nil
+}
+
 // loopExitDo applies the `exit-do` ghost updates of a loop when control leaves it through the header.
 func (vc *VC) loopExitDo(act *Act, b, succ *ssa.BasicBlock, st *State) {
 	if act.fc == nil || !isLoopHeader(b) || loopBody(b)[succ] {
@@ -674,6 +698,9 @@ func (vc *VC) cutLoop(act *Act, h *ssa.BasicBlock, st *State, phiVals map[*ssa.P
 			ns.top = vc.fresh("top", "Int")
 			vc.assume(ns, fmt.Sprintf("(>= %s %s)", ns.top, old))
 		}
+	}
+	if r := headerRange(h); r != nil {
+		ns.visited[vc.rangeID(r)] = vc.fresh("vis", "(Array Int Bool)")
 	}
 	// 3. assume invariants
 	if lc != nil {
@@ -1157,8 +1184,11 @@ func (vc *VC) execInstr(act *Act, st *State, ins ssa.Instruction) {
 	case *ssa.MapUpdate:
 		vc.mapUpdate(act, st, i)
 	case *ssa.Range:
-		// iterator: remember the collection
+		// iterator: remember the collection; no key has been delivered yet
 		act.env[i] = TupleV{[]Val{vc.val(act, i.X)}}
+		if _, isMap := i.X.Type().Underlying().(*types.Map); isMap {
+			st.visited[vc.rangeID(i)] = "((as const (Array Int Bool)) false)"
+		}
 	case *ssa.Next:
 		vc.next(act, st, i)
 	case *ssa.Select:
@@ -1614,7 +1644,7 @@ func (vc *VC) mapKey(st *State, k Val, kt types.Type) string {
 
 func (vc *VC) mapLoad(st *State, m MapV, key string, vt types.Type) (Val, string) {
 	w := width(vt) + 1
-	base := vc.def("mb", "Int", fmt.Sprintf("(* %s %d)", key, w))
+	base := vc.mapSlot(key, w)
 	present := vc.def("mp", "Int", vc.sel(st.mi, m.ref, base))
 	lay := layout(vt)
 	leaves := make([]string, len(lay))
@@ -1667,7 +1697,7 @@ func (vc *VC) mapUpdate(act *Act, st *State, i *ssa.MapUpdate) {
 	vc.safety(act, st, "nilmap", not(eq(m.ref, "0")), i.Pos())
 	key := vc.mapKey(st, vc.val(act, i.Key), mt.Key())
 	w := width(mt.Elem()) + 1
-	base := vc.def("mb", "Int", fmt.Sprintf("(* %s %d)", key, w))
+	base := vc.mapSlot(key, w)
 	vc.frameCheck(st, m.ref, "", "", "mapupdate", vc.mapWhat(i.Map), i.Pos())
 	st.mi = vc.def("MI", memSort, fmt.Sprintf("(store %s %s (store (select %s %s) %s 1))", st.mi, m.ref, st.mi, m.ref, base))
 	vc.writeLeaves(st, m.ref, add(base, 1), mt.Elem(), flatten(vc.val(act, i.Value)))
@@ -1700,6 +1730,17 @@ func (vc *VC) next(act *Act, st *State, i *ssa.Next) {
 	v, pres := vc.mapLoad(st, m, key, mt.Elem())
 	vc.assume(st, implies(eq(ok, "1"), pres))
 	act.env[i] = TupleV{[]Val{IntV{ok}, kv, v}}
+	// visited set: a delivered key is present and new; when the iteration ends every present key was delivered
+	rid := vc.rangeID(rng)
+	vis, okv := st.visited[rid]
+	if !okv {
+		vis = vc.fresh("vis", "(Array Int Bool)")
+	}
+	vc.assume(st, implies(eq(ok, "1"), fmt.Sprintf("(not (select %s %s))", vis, key)))
+	w := width(mt.Elem()) + 1
+	slot := vc.mapSlot("q", w)
+	vc.assume(st, implies(eq(ok, "0"), fmt.Sprintf("(forall ((q Int)) (! (=> (and (not (= %s 0)) (= (select (select %s %s) %s) 1)) (select %s q)) :pattern ((select (select %s %s) %s)) :pattern ((select %s q))))", m.ref, st.mi, m.ref, slot, vis, st.mi, m.ref, slot, vis)))
+	st.visited[rid] = vc.def("vis", "(Array Int Bool)", fmt.Sprintf("(ite (= %s 1) (store %s %s true) %s)", ok, vis, key, vis))
 	// mapnext events: arg0 is 1 when an entry was delivered, 0 at the end of the iteration
 	for _, ev := range vc.eng.eventsFor("mapnext", vc.mapWhat(rng.X)) {
 		vc.applyEvent(act, st, st.clone(), ev, []Val{IntV{ok}, v}, []types.Type{types.Typ[types.Int], mt.Elem()}, nil, nil, i)
